@@ -134,7 +134,7 @@ class Worker:
             buf += chunk
         return buf
 
-    def call_raw(self, frame, watchdog_s=None):
+    def call_raw(self, frame, watchdog_s=None, _retry=True):
         if self.proc is None or self.proc.poll() is not None or self.count >= self.max_requests:
             self.close()
             self._spawn()
@@ -152,6 +152,13 @@ class Worker:
             self.proc.wait()
             self.proc = None
             self.restarts += 1
+            if _retry:
+                # a loaded machine can stretch one request past the watchdog: ask again on a fresh process with four
+                # times the allowance before calling it a stall
+                r = self.call_raw(frame, 4 * (watchdog_s or self.watchdog_s), _retry=False)
+                if r.get("outcome") != "timeout":
+                    r["slow"] = True
+                return r
             return {"outcome": "timeout", "code": -1, "stdout": "", "stderr": "", "panic": "watchdog"}
         except (WorkerDied, BrokenPipeError, OSError):
             rc = None
